@@ -22,7 +22,7 @@ try:
     env = dict(os.environ, VERIF_REPO_DIR=wt, VERIF_OUT_DIR=out)
     for c in args:
         p = sh('/verif/check', c, '--tier', tier, cwd='/verif', env=env)
-        lines = [l for l in p.stdout.splitlines() if l.startswith(('VIOLATION', 'KNOWN', 'MACHINERY', '  stage='))]
+        lines = [l for l in p.stdout.splitlines() if l.startswith(('VIOLATION', 'KNOWN', 'MACHINERY', '  stage=', '  diagnosis'))]
         print('== %s rc=%d' % (c, p.returncode))
         for l in lines[:6]:
             print('   ', l[:330])
